@@ -355,7 +355,13 @@ FamIntr(K, CH) ==
 CrashPoints == {"start", "fin-extractdeps", "fin-restat", "fin-planfinished", "fin-rspremove", "fin-logappend", "fin-depsappend",
                 "buildlog-record", "depslog-record", "depslog-id"}
 CrashGraphs(K) == UNION {GraphsS(sh, {"plain", "restat", "two", "gcc", "depfile", "rsp", "restatgcc"}, K) : sh \in {"chain2", "fanin", "fanout", "mixed", "group", "implicit", "oonly"}}
+\* ninja dies between the build-log record and the deps-log record of a statement that reads a restat statement's output
+\* through a phony alias; the recovery build finds that output untouched while a recorded header was edited meanwhile
+CrashAliasGraph == Graph(<<Mk(1, C(<<"s1">>), "restat"), Mk(2, Sk(<<"o1">>, <<>>, <<>>, <<>>, TRUE), "plain"), Mk(3, C(<<"o2">>), "gcc"), Mk(4, C(<<"o3">>), "plain")>>)
 FamCrash(K, CH) ==
+  {Scn(CrashAliasGraph, <<BX(Roots(CrashAliasGraph), 1, 1, [crash |-> [point |-> pt, n |-> n]]), [op |-> "touch", f |-> "s1"], [op |-> "edit", f |-> CrashAliasGraph.stmts[3].hdrs[1]],
+                          Build(Roots(CrashAliasGraph), 2, 1), Build(Roots(CrashAliasGraph), 2, 1)>>) : pt \in {"fin-logappend", "fin-depsappend", "depslog-record"}, n \in {1, 2, 3}}
+  \cup
   UNION { {Scn(gr, <<BX(Roots(gr), j, 1, [crash |-> [point |-> pt, n |-> n]]), Build(Roots(gr), 2, 1), Build(Roots(gr), 2, 1)>>) :
               j \in {1, 2}, pt \in CrashPoints, n \in {1, 2}} : gr \in CrashGraphs(K) }
   \cup
